@@ -6,6 +6,8 @@ import ParryModel.C05.Theorems5
 import ParryModel.C05.Theorems6
 import ParryModel.C05.Theorems7
 import ParryModel.C05.Theorems8
+import ParryModel.C05.Theorems9
+import ParryModel.C05.Theorems10
 /-!
 # C05 property theorems (umbrella file)
 
@@ -20,5 +22,7 @@ import ParryModel.C05.Theorems8
 * `Theorems6.lean` — fu4: `map_elements_in_local_aabb` loop structure (each cell of the range once), per-cell ids, y-cull soundness.
 * `Theorems7.lean` — fu4: `compute_pseudo_normals` is the angle-weighted sum; convex-inside half for the model's own vertex normal.
 * `Theorems8.lean` — fu4: nearest point on a height field (`project_local_point`, `_with_max_dist`), TriMesh query glue.
+* `Theorems9.lean` — fu4: height-field cell triangles are non-degenerate; tetrahedron vertex c / d branches.
+* `Theorems10.lean` — fu4: the edge pseudo-normals of `compute_pseudo_normals` are the sums of the normals of the faces sharing the edge.
 `./mkaudit C05` collects the public `theorem`s of every `Theorems*.lean`.
 -/
